@@ -194,6 +194,46 @@ def shape(it):
     return (it["kind"], it["len"], it["bitpos"], it["mask"], it["rw"] is not None, len(it["labels"] or []))
 
 
+def temp_roundtrips(ctx, only=None):
+    """every stored word of a window (and a seeded sample of the rest) of the writable temperature items of two shipped pairs:
+    present it, write the presented value back through the blocking and the awaitable path, the device write must carry that word"""
+    from props import c14
+    import struct as _st
+    n = 0
+    for cfg, log in (("inyt-cfg-61", "inyt-log-59"), ("inxm-cfg-9", "inxm-log-9")):
+        try:
+            spa = c14.Spa(cfg, log)
+            tag = c14.find_writable_temp(spa)
+        except Exception as e:  # noqa
+            ctx.violation(f"temp:build:{cfg}", {"kind": "temp", "cfg": cfg, "log": log}, "the pair builds", f"{type(e).__name__}: {e}")
+            continue
+        if tag is None:
+            continue
+        acc = spa.accessors[tag]
+        raws = list(range(0, 1100)) + [ctx.rng.randrange(1100, 65536) for _ in range(150 if ctx.quick else 5000)] + [65535, 32767, 32768]
+        if only is not None:
+            raws = [only[1]]
+        for units in ("C", "F") if only is None else (only[0],):
+            ub = c14.units_block(spa, units)
+            if ub is None:
+                continue
+            bad = 0
+            for raw in raws:
+                blk = ub[:acc.pos] + _st.pack(">H", raw) + ub[acc.pos + 2:]
+                v = c14.impl_read(spa, tag, blk)
+                if not isinstance(v, float):
+                    continue
+                w1, w2 = c14.impl_write(spa, tag, blk, v)
+                n += 1
+                if w1 != raw or w2 != raw:
+                    bad += 1
+                    if bad <= 2:
+                        ctx.violation(f"readback:temp:{units}", {"kind": "temp", "cfg": cfg, "log": log, "tag": tag, "units": units, "raw": raw},
+                                      f"writing the presented value {v!r} stores the word {raw}", {"blocking": w1, "awaitable": w2})
+    ctx.count("evaluations", n)
+    ctx.cov["temperature_roundtrips"] = n
+
+
 def run(ctx):
     st = translate.run(["AccessorArith", "Packs", "Pinned"])
     ctx.cov["translator"] = st
@@ -334,6 +374,9 @@ def run(ctx):
                             ctx.violation(f"other:{f}:{tag}:{o['key']}", {"module": f, "tag": tag, "other": o["key"], "block": bid, "block_hex": (blk.hex() if bid[0] == "c" else None), "value": repr(v)},
                                           "items with a disjoint field keep their value", [a0, oa.raw_value])
                             break
+    # ---------- temperature items: write what the item presents, in both units, on both paths (the conversion itself is C14's
+    #            subject; here only the property's own clause: a value from the item's domain reads back the same) ----------
+    temp_roundtrips(ctx)
     # ---------- correspondence: the Lean model must predict every answer ----------
     try:
         model = Driver("Driver/C02.lean").run(lines)
@@ -367,6 +410,12 @@ def run(ctx):
 
 
 def replay(inp):
+    if inp.get("kind") == "temp":
+        from common import Ctx
+        c = Ctx("C02", "quick", 0)
+        temp_roundtrips(c, only=(inp["units"], inp["raw"]))
+        v = [x for x in c.violations if x["input"].get("cfg") == inp["cfg"]]
+        return bool(v), v[0]["observed"] if v else "reads back"
     impl = Impl(inp["module"])
     it = [i for m in packs.load_tables() if m["file"] == inp["module"] for i in m["items"] if i["key"] == inp["tag"]][0]
     blk = {"z": bytes(1024), "o": b"\xff" * 1024}.get(inp.get("block"), bytes(1024))
